@@ -177,6 +177,68 @@ func cMakesCursor(n *cnode) bool {
 	return found
 }
 
+// c20CGuardPolarity classifies the condition of an `if` that tests guard function g:
+// +1 when the condition is true in every case in which SQL must be refused (the then branch sees all
+// of them), -1 when it is false in every such case (the else branch sees all of them), 0 otherwise.
+//
+//	luaCheckView ("positive": the view depth, refuse when >= 1): every comparison with a literal that
+//	    splits at 0 | >= 1, operands in either order (> 0, != 0, >= 1, 0 <, ... / == 0, <= 0, < 1, ...),
+//	    the bare call and its negation.  Same classification as c20GapViewThreshold (c-view-threshold).
+//	sqlite3_stmt_readonly, sqlcheck_is_readonly_sql ("negated": refuse when 0): !f(), f() == 0 / the
+//	    bare call, f() != 0.
+//
+// A disjunction refuses when one of its operands refuses (`if (A || B) error`); the mirrored form for
+// the permitted case is a conjunction.  Nothing else is accepted.
+func c20CGuardPolarity(cond *cnode, g string) int {
+	cond = c20GapCStrip(cond)
+	if cond == nil {
+		return 0
+	}
+	isCall := func(n *cnode) bool {
+		n = c20GapCStrip(n)
+		return n != nil && n.Kind == "CallExpr" && n.calleeName() == g
+	}
+	sign := 1 // value of the call "truthy" means refuse
+	if c20SqlGuards[g] == "negated" {
+		sign = -1
+	}
+	switch {
+	case isCall(cond):
+		return sign
+	case cond.Kind == "UnaryOperator" && cond.Opcode == "!" && len(cond.Inner) == 1:
+		return -c20CGuardPolarity(cond.Inner[0], g)
+	case cond.Kind == "BinaryOperator" && (cond.Opcode == "||" || cond.Opcode == "&&") && len(cond.Inner) == 2:
+		l, r := c20CGuardPolarity(cond.Inner[0], g), c20CGuardPolarity(cond.Inner[1], g)
+		want := 1 // `refuse || x`: the then branch covers every refused case
+		if cond.Opcode == "&&" {
+			want = -1 // `permitted && x`: the else branch covers every refused case
+		}
+		if l == want || r == want {
+			return want
+		}
+		return 0
+	}
+	lv, op, k, isCmp := c20GapCCmp(cond)
+	if !isCmp || !isCall(lv) {
+		return 0
+	}
+	// truthy: call >= 1 (depth / flag values are never negative); falsy: call == 0
+	truthy := (k == 0 && (op == ">" || op == "!=")) || (k == 1 && op == ">=")
+	falsy := (k == 0 && (op == "==" || op == "<=")) || (k == 1 && op == "<")
+	if c20SqlGuards[g] == "negated" {
+		// a 0/1 answer of SQLite / sqlcheck: only the comparisons with zero are taken as its truth value
+		truthy = k == 0 && op == "!="
+		falsy = k == 0 && op == "=="
+	}
+	switch {
+	case truthy:
+		return sign
+	case falsy:
+		return -sign
+	}
+	return 0
+}
+
 var c20CExempt = map[string]string{
 	"db_rs_next": "steps the cursor of a result set; result sets are created only by db_query / db_pstmt_query, which are behind the read-only statement test",
 }
@@ -225,12 +287,16 @@ func cfrontC20(c *rep.Ctx) {
 		}
 		ok := false
 		how := "no guard precedes the statement execution"
-		for i := 0; i < execIdx; i++ {
+		for i := 0; i < execIdx && !ok; i++ {
 			st := body.Inner[i]
 			if st.Kind != "IfStmt" || len(st.Inner) < 2 {
 				continue
 			}
 			cond, then := st.Inner[0], st.Inner[1]
+			var els *cnode
+			if len(st.Inner) >= 3 {
+				els = st.Inner[2]
+			}
 			var g string
 			cond.walk(func(m *cnode) bool {
 				if m.Kind == "CallExpr" && guardNames[m.calleeName()] && g == "" {
@@ -241,31 +307,27 @@ func cfrontC20(c *rep.Ctx) {
 			if g == "" {
 				continue
 			}
-			// polarity of the test
-			pol := false
-			top := cond
-			for top.Kind == "ParenExpr" || top.Kind == "ImplicitCastExpr" {
-				if len(top.Inner) == 0 {
-					break
+			// polarity of the test: +1 the condition holds whenever SQL must be refused (the then
+			// branch has to leave), -1 it fails whenever SQL must be refused (the else branch has to
+			// leave), 0 neither.  Decided on the value of the comparison, not on its spelling.
+			pol := c20CGuardPolarity(cond, g)
+			leaves := func(b *cnode) bool {
+				if b == nil {
+					return false
 				}
-				top = top.Inner[0]
+				exits := b.callsAny(errCalls)
+				b.walk(func(m *cnode) bool {
+					if m.Kind == "ReturnStmt" {
+						exits = true
+					}
+					return true
+				})
+				return exits
 			}
-			switch c20SqlGuards[g] {
-			case "positive":
-				pol = top.Kind == "BinaryOperator" && (top.Opcode == ">" || top.Opcode == "!=")
-			case "negated":
-				pol = top.Kind == "UnaryOperator" && top.Opcode == "!"
-			}
-			exits := then.callsAny(errCalls)
-			then.walk(func(m *cnode) bool {
-				if m.Kind == "ReturnStmt" {
-					exits = true
-				}
-				return true
-			})
-			if pol && exits {
+			exits := (pol > 0 && leaves(then)) || (pol < 0 && leaves(els))
+			if pol != 0 && exits {
 				ok, how = true, "top-level guard on "+g+" with an error exit precedes the execution"
-			} else if !pol {
+			} else if pol == 0 {
 				how = "the test of " + g + " has the wrong polarity"
 			} else {
 				how = "the guard on " + g + " does not leave the function"
@@ -275,19 +337,6 @@ func cfrontC20(c *rep.Ctx) {
 	}
 	if nExec < 5 {
 		c.Undecide("c-sql-guard", "db_module.c", "fewer statement-executing bindings than on the reference tree")
-	}
-	// result sets (cursor objects) are created only in guarded query functions
-	rsMakers := map[string]bool{}
-	for name, body := range fns {
-		body.walk(func(m *cnode) bool {
-			if m.Kind == "CallExpr" && m.calleeName() == "luaL_getmetatable" || m.Kind == "StringLiteral" {
-				return true
-			}
-			return true
-		})
-		if body.callsAny(map[string]bool{"get_column_meta": true}) && name != "get_column_meta" {
-			rsMakers[name] = true
-		}
 	}
 	// view wrappers of the VM are installed as a pair and call the Go callbacks
 	vm := clangAST(c, "vm.c")
